@@ -21,6 +21,7 @@ structure Cfg where
   heavy  : Bool
   shadow : Bool
   featC  : Bool     -- cascade: sink s2 adds child events handled by sink `sc`
+  featG  : Bool := false  -- the cascade is fired through a function (fresh instance state: known finding)
   deriving Repr
 
 /-- instruction table (15 bits), the same arithmetic as `c11Mix` in go/cmd/harness/c11.go -/
@@ -35,10 +36,11 @@ def mix (seed id salt : Nat) : Nat :=
 /-- kind of the event: `t.b` (true) or `t.a` -/
 def kindB (c : Cfg) (id : Nat) : Bool := c.sinks ≥ 2 && mix c.seed id 0 % 2 == 1
 
-/-- 0 succeed, 1 raise(T_<sink>_<id>, d<id>, id), 2 return id, 3 Go function failing with E_<sink>_<id> -/
+/-- 0 succeed, 1 raise(T_<sink>_<id>, d<id>, id), 2 return id, 3 Go function failing with E_<sink>_<id>,
+    4 a plain scope error carrying the id (the ErrSink branch of the action) -/
 def failMode (c : Cfg) (id s : Nat) : Nat :=
   let m := mix c.seed id s
-  if m % 2 == 0 then 1 + (m / 2) % 3 else 0
+  if m % 2 == 0 then 1 + (m / 2) % 4 else 0
 
 def cas (c : Cfg) (id : Nat) : Nat :=
   if c.featC && c.sinks ≥ 2 && mix c.seed id 7 % 2 == 0 then 2 + mix c.seed id 8 % 3 else 0
@@ -87,11 +89,14 @@ def invocations (c : Cfg) (id : Nat) : List Inv :=
 
 def modulus : Nat := 1000003
 
+/-- record hashes, not linear in the fields (two records that exchange a field change the digest) -/
 def errHash (evid sinkNo shape n sinkIn : Nat) : Nat :=
-  (evid * 31 + sinkNo * 7 + shape * 3 + n * 1009 + sinkIn * 13 + 5) % modulus
+  let x := (evid * 1000003 + n * 7919 + sinkNo * 104729 + shape * 1299709 + sinkIn * 15485863 + 5) % 2147483647
+  (x * x + x / 7 + 13) % modulus
 
 def echoHash (sinkNo a b cc d acc mk : Nat) : Nat :=
-  (sinkNo * 7 + a * 31 + b * 37 + cc * 41 + d * 43 + acc * 47 + mk * 53 + 11) % modulus
+  let x := (sinkNo * 15485863 + a * 1000003 + b * 7919 + cc * 104729 + d * 1299709 + acc * 611953 + mk * 3571 + 11) % 2147483647
+  (x * x + x / 7 + 17) % modulus
 
 /-- value of the accumulator the body computes: `for i in range(1, 5) { acc := acc + i + loc }` -/
 def accOf (c : Cfg) (i : Inv) : Nat :=
@@ -104,19 +109,26 @@ structure Digest where
   recS : Nat := 0
   inv  : Nat := 0     -- invocations of s1..s3 (what the lock-protected global counts)
 
-def addInv (c : Cfg) (d : Digest) (i : Inv) : Digest :=
+/-- `spec = false`: the code as it is — with the cascade fired through a function (`featG`) the
+    failures of child and grandchild events are recorded under unrelated root monitors and are LOST
+    from the report of the event (known finding error-lost-under-nested-instance-state);
+    `spec = true`: what the property demands (every failure under the root's report). -/
+def countsError (c : Cfg) (spec : Bool) (i : Inv) : Bool :=
+  i.fail != 0 && (spec || !(c.featG && (i.sink == 4 || i.sink == 5)))
+
+def addInv (c : Cfg) (spec : Bool) (d : Digest) (i : Inv) : Digest :=
   let d := { d with recN := d.recN + 1,
                     recS := (d.recS + echoHash i.sink i.event i.event i.event i.event (accOf c i) i.event) % modulus,
                     inv := d.inv + (if i.sink == 4 || i.sink == 5 then 0 else 1) }
-  if i.fail != 0 then
+  if countsError c spec i then
     { d with errN := d.errN + 1, errS := (d.errS + errHash i.event i.sink i.fail i.event i.sink) % modulus }
   else d
 
-def digest (c : Cfg) : Digest :=
-  (List.range c.ev).foldl (fun d id => (invocations c id).foldl (addInv c) d) {}
+def digest (c : Cfg) (spec : Bool) : Digest :=
+  (List.range c.ev).foldl (fun d id => (invocations c id).foldl (addInv c spec) d) {}
 
-def line (c : Cfg) : String :=
-  let d := digest c
+def line (c : Cfg) (spec : Bool := false) : String :=
+  let d := digest c spec
   s!"E{d.errN}:{d.errS} R{d.recN}:{d.recS} T{if c.glob then toString d.inv else "-"} S{if c.shadow then "1" else "-"} D0"
 
 end Ecal.SinkSpec
